@@ -22,7 +22,10 @@ import (
 var c06alphabet = []string{"G", "Gc", "X", "C", "E4", "E5", "Gd", "Gh"}
 
 // validator kinds of a resource
-var c06kinds = []string{"both", "etag", "lastmod", "none", "weak", "lastmod-rfc850", "lastmod-asctime"}
+// "coarse-etag": the entity tag names a generation and stays the same while content and Last-Modified change; the
+// origin validates by date only (it ignores If-None-Match), so a changed representation comes back as a 200 that
+// carries the stored tag. "both-bare304" / "etag-bare304": the origin's 304 carries no validator header at all.
+var c06kinds = []string{"both", "etag", "lastmod", "none", "weak", "lastmod-rfc850", "lastmod-asctime", "coarse-etag", "both-bare304", "etag-bare304"}
 
 type c06resState struct {
 	kind    string
@@ -38,8 +41,10 @@ type c06world struct {
 
 func c06etag(kind string, res, v int) string {
 	switch kind {
-	case "both", "etag":
+	case "both", "etag", "both-bare304", "etag-bare304":
 		return rig.ETag(res, v)
+	case "coarse-etag":
+		return rig.ETag(res, 0)
 	case "weak":
 		return "W/" + rig.ETag(res, v)
 	}
@@ -48,7 +53,7 @@ func c06etag(kind string, res, v int) string {
 
 func c06lastmod(kind string, v int) string {
 	switch kind {
-	case "both", "lastmod":
+	case "both", "lastmod", "coarse-etag", "both-bare304":
 		return rig.LastMod(v)
 	case "lastmod-rfc850", "lastmod-asctime":
 		// the obsolete but valid date forms an origin may still write
@@ -90,13 +95,13 @@ func (w *c06world) handler(rw http.ResponseWriter, q *http.Request, rec *rig.Ori
 	}
 	et, lm := c06etag(kind, res, cur), c06lastmod(kind, cur)
 	notMod := false
-	if inm := q.Header.Get("If-None-Match"); inm != "" {
+	if inm := q.Header.Get("If-None-Match"); inm != "" && kind != "coarse-etag" {
 		notMod = et != "" && inm == et
 	} else if ims := q.Header.Get("If-Modified-Since"); ims != "" {
 		notMod = lm != "" && c06sameDate(ims, lm)
 	}
 	if notMod {
-		if et != "" {
+		if et != "" && !strings.HasSuffix(kind, "-bare304") {
 			rw.Header().Set("ETag", et)
 		}
 		rw.WriteHeader(304)
@@ -401,6 +406,14 @@ func c06Run(b core.Batch, r *core.Recorder) {
 			rec(0)
 		}
 	}
+	// fixed longer histories for every kind: repeated revalidations of one entry, with and without content changes
+	for ki, kind := range c06kinds {
+		for hi, h := range []string{"X,G,X,G,X,G", "X,G,C,X,G,X,G", "C,X,G,X,G,C,X,G,G", "X,G,X,G,C,X,G,X,G,C,X,G", "X,Gc,X,Gd,C,X,Gh,X,G"} {
+			if (ki*5+hi)%parts == part {
+				run(kind, strings.Split(h, ","))
+			}
+		}
+	}
 	rng := b.Rand("c06")
 	for i := 0; i < b.Int("random", 50); i++ {
 		l := depth + 1 + rng.IntN(10)
@@ -434,7 +447,7 @@ func init() {
 		ID:    "C06",
 		Level: "exploration",
 		Rule: "per resource: an initial GET followed by every sequence up to <depth> over {G, Gc (client If-None-Match/If-Modified-Since or If-Match/If-Unmodified-Since carrying sentinels), Gd (same with RFC 850 dates / weak tag), Gh (client Connection header nominating the conditional field names), X (force-expire the stored entry), C (origin changes content and validators), E4, E5 (origin answers the next request 404 / 500)} plus seeded random sequences up to depth+10, " +
-			"for each validator kind {ETag+Last-Modified, ETag only, Last-Modified only, none, weak ETag, Last-Modified in RFC 850 form, in asctime form}, both backends, plain (all) and tunnel (every 4th). A sequential model of what the proxy must hold predicts every origin-side request (validators) and client response. Non-trivial = distinct history with at least one revalidation.",
+			"5 fixed histories with repeated revalidations, for each validator kind {ETag+Last-Modified, ETag only, Last-Modified only, none, weak ETag, Last-Modified in RFC 850 form, in asctime form, a coarse ETag that stays the same while content and date change (origin validates by date and answers 200 with the stored tag), origins whose 304 carries no validator header}, both backends, plain (all) and tunnel (every 4th). A sequential model of what the proxy must hold predicts every origin-side request (validators) and client response. Non-trivial = distinct history with at least one revalidation.",
 		Assumptions: []string{"entries are made stale through the tag-guarded expiry accessor instead of sleeping; the lifetime logic itself is C03's subject", "when the origin sent no Last-Modified, If-Modified-Since may be absent or the receipt time",
 			"a request reaching the origin although the entry is fresh is not judged here (C03/C04)"},
 		Plan:     c06Plan,
